@@ -533,8 +533,24 @@ func (l *loopState) notifySteps() { //nolint:gocognit
 	readyNodes := l.dag.PopReadyNodes()
 	l.logger.Debugf("Currently %d DAG nodes are ready. Now processing them.", len(readyNodes))
 
+	// Dependency groups have no work of their own. They are handled before the other nodes that are ready in this round,
+	// so that a node that is ready in the same round as the group of one of its optional inputs finds that group
+	// resolved, whatever the order in which the map is iterated.
+	nodeIDs := make([]string, 0, len(readyNodes))
+	var otherNodeIDs []string
+	for nodeID := range readyNodes {
+		node, err := l.dag.GetNodeByID(nodeID)
+		if err == nil && node.Item().Kind == DagItemKindDependencyGroup {
+			nodeIDs = append(nodeIDs, nodeID)
+		} else {
+			otherNodeIDs = append(otherNodeIDs, nodeID)
+		}
+	}
+	nodeIDs = append(nodeIDs, otherNodeIDs...)
+
 	// Can include runnable nodes, nodes that cannot be resolved, and nodes that are not for running, like inputs.
-	for nodeID, resolutionStatus := range readyNodes {
+	for _, nodeID := range nodeIDs {
+		resolutionStatus := readyNodes[nodeID]
 		failed := resolutionStatus == dgraph.Unresolvable
 		l.logger.Debugf("Processing step node %s with resolution status %q", nodeID, resolutionStatus)
 		node, err := l.dag.GetNodeByID(nodeID)
